@@ -594,9 +594,11 @@ class _Algorithm2D:
             ]).flatten()
 
         """
+        # use float dtype so that the square root of the weights is not calculated with
+        # reduced precision if the input weights have a lower precision dtype
         weight_array = _check_optional_array(
-            self._shape, weights, copy_input=copy_weights, check_finite=self._check_finite,
-            ensure_1d=False, axis=slice(None)
+            self._shape, weights, dtype=float, copy_input=copy_weights,
+            check_finite=self._check_finite, ensure_1d=False, axis=slice(None)
         )
         if self._sort_order is not None and weights is not None:
             weight_array = weight_array[self._sort_order]
